@@ -713,6 +713,28 @@ def check_word_ops(rep, rid, m, cname, maxs):
                     ok(fn)
                 else:
                     bad(fn, src_of(fn), "decode(a ^= b) != decode(a) ^ decode(b) (value bit %s differs by %s)" % _first_diff(got, want))
+        # replace: the top `size` bytes of the value come from src, the rest stays
+        fn = pre + "replace"
+        if W.has(fn):
+            for size in range(1, 8):
+                def s_repl(mc, size=size):
+                    d = mc.new_obj("Wd", W.wsize)
+                    s = mc.new_obj("Ws", W.wsize)
+                    keep = 64 - 8 * size
+                    want = tuple(W.decode(K, mc, d)[:keep]) + tuple(W.decode(K, mc, s)[keep:])
+                    mc.call(fn, [d, s, const_bits(size, 32)])
+                    return d, want
+                mc, r = run(fn, s_repl)
+                if mc:
+                    d, want = r
+                    got = W.decode(K, mc, d)
+                    if _eq(got, want):
+                        ok("%s size %d" % (fn, size))
+                    else:
+                        bad(fn + ":size%d" % size, src_of(fn),
+                            "replace(dest, src, %d) does not give the top %d byte(s) of src followed by the remaining "
+                            "byte(s) of dest on the decoded value (value bit %s differs by %s)" % (
+                                (size, size) + _first_diff(got, want)))
         # from_x<B>
         for B in (2, 3, 4):
             fn = pre + "from_x%d" % B
